@@ -212,7 +212,58 @@ def e2e_body(ctx, cfg):
             # with conditioning, R must still reproduce the duplicate's slopes on the retained subspace: R C_off = C_on,off is already asserted
 
 
+# ------------------------------------------------------------------ histories on one object: rebuild, then reconstruct again
+
+@st.composite
+def rebuild_cases(draw):
+    cfg = draw(e2e_cases())
+    cfg["edits"] = draw(st.lists(st.sampled_from(["r0", "L0", "gs", "wavelength", "layers", "none"]), min_size=1, max_size=3))
+    cfg["rc"] = draw(st.sampled_from([0.0, 1e-3, 1e-2]))
+    return cfg
+
+
+def rebuild_body(ctx, cfg):
+    """The reconstructor must belong to the covariance matrix the object holds *now*: build, reconstruct, change a
+    parameter of the object, rebuild, reconstruct with the same conditioning."""
+    sc = SC()
+    cl, _ = c01.classes_of(cfg)
+    ctx.case(cfg, nontrivial=True, classes=["edit_" + e for e in cfg["edits"]])
+    C32, cm = c01.build(cfg)
+    n_on = int(np.sum(np.array(cfg["pupil_masks"][0]) == 1))
+    rc = cfg["rc"]
+    cur = dict(cfg)
+    for step, e in enumerate(["first"] + list(cfg["edits"])):
+        if e == "r0":
+            cur["layer_r0s"] = [r * (1.7 if i % 2 == 0 else 0.6) for i, r in enumerate(cur["layer_r0s"])]
+            cm.layer_r0s = list(cur["layer_r0s"])
+        elif e == "L0":
+            cur["layer_L0s"] = [x * 2.0 for x in cur["layer_L0s"]]
+            cm.layer_L0s = list(cur["layer_L0s"])
+        elif e == "gs":
+            cur["gs_positions"] = [[p[0] + 11.0 * (i + 1), p[1] - 7.0 * i] for i, p in enumerate(cur["gs_positions"])]
+            cm.gs_positions = [list(p) for p in cur["gs_positions"]]
+        elif e == "wavelength":
+            cur["wfs_wavelengths"] = [w * (1.5 if i == 0 else 1.0) for i, w in enumerate(cur["wfs_wavelengths"])]
+            cm.wfs_wavelengths = list(cur["wfs_wavelengths"])
+        elif e == "layers":
+            cur["layer_altitudes"] = [h * 0.5 for h in cur["layer_altitudes"]]
+            cm.layer_altitudes = list(cur["layer_altitudes"])
+        if e != "first":
+            M = np.array(cm.make_covariance_matrix())
+            fresh, _ = c01.build(cur)
+            ctx.equal(M, fresh, "rebuilt covariance matrix (after changing %s on the object) differs from a fresh object's" % e)
+        else:
+            M = C32
+        R = np.asarray(cm.make_tomographic_reconstructor(svd_conditioning=rc))
+        want = np.asarray(sc.create_tomographic_covariance_reconstructor(M, n_on, rc))
+        ctx.require(R.shape == want.shape and np.array_equal(R, want, equal_nan=True), "step %d (%s): make_tomographic_reconstructor does not return the reconstructor of the object's current covariance matrix (max diff %.3g)" % (
+            step, e, float(np.max(np.abs(R - want))) if R.shape == want.shape else float("nan")))
+        R_again = np.asarray(cm.make_tomographic_reconstructor(svd_conditioning=rc))
+        ctx.require(np.array_equal(R_again, R, equal_nan=True), "make_tomographic_reconstructor not repeatable")
+
+
 LAWS = [
+    given_law("rebuild_history", rebuild_cases(), rebuild_body, {"quick": 25, "thorough": 150}, shards={"quick": 4, "thorough": 16}),
     given_law("synthetic", synth_cases(), synth_body, {"quick": 400, "thorough": 5000}, shards={"quick": 3, "thorough": 16}),
     given_law("end_to_end", e2e_cases(), e2e_body, {"quick": 40, "thorough": 300}, shards={"quick": 6, "thorough": 16}),
 ]
